@@ -645,3 +645,69 @@ macro_rules! with_cal {
         }
     };
 }
+
+// ------------------------------------------------------------------ the Python-facing calendar methods
+
+/// What Python calls on a calendar object (`roll_py`, `add_bus_days_py`, ... reached through the verif hooks).
+/// `None` where a kind has no Python class of its own (the CalType container).
+pub trait PyCalLayer {
+    fn py_roll(&self, _d: NaiveDateTime, _m: rateslib::calendars::Modifier, _s: bool) -> Option<Result<NaiveDateTime, ()>> {
+        None
+    }
+    fn py_add_bus_days(&self, _d: NaiveDateTime, _n: i8, _s: bool) -> Option<Result<NaiveDateTime, ()>> {
+        None
+    }
+    fn py_add_days(&self, _d: NaiveDateTime, _n: i8, _m: rateslib::calendars::Modifier, _s: bool) -> Option<Result<NaiveDateTime, ()>> {
+        None
+    }
+    fn py_add_months(&self, _d: NaiveDateTime, _n: i32, _m: rateslib::calendars::Modifier, _r: rateslib::calendars::RollDay, _s: bool) -> Option<Result<NaiveDateTime, ()>> {
+        None
+    }
+    fn py_lag(&self, _d: NaiveDateTime, _n: i8, _s: bool) -> Option<NaiveDateTime> {
+        None
+    }
+    fn py_predicates(&self, _d: NaiveDateTime) -> Option<(bool, bool, bool)> {
+        None
+    }
+    fn py_bus_date_range(&self, _a: NaiveDateTime, _b: NaiveDateTime) -> Option<Result<Vec<NaiveDateTime>, ()>> {
+        None
+    }
+    fn py_cal_date_range(&self, _a: NaiveDateTime, _b: NaiveDateTime) -> Option<Result<Vec<NaiveDateTime>, ()>> {
+        None
+    }
+}
+
+macro_rules! py_cal_layer {
+    ($t:ty) => {
+        impl PyCalLayer for $t {
+            fn py_roll(&self, d: NaiveDateTime, m: rateslib::calendars::Modifier, s: bool) -> Option<Result<NaiveDateTime, ()>> {
+                Some(self.verif_py_roll(d, m, s))
+            }
+            fn py_add_bus_days(&self, d: NaiveDateTime, n: i8, s: bool) -> Option<Result<NaiveDateTime, ()>> {
+                Some(self.verif_py_add_bus_days(d, n, s))
+            }
+            fn py_add_days(&self, d: NaiveDateTime, n: i8, m: rateslib::calendars::Modifier, s: bool) -> Option<Result<NaiveDateTime, ()>> {
+                Some(self.verif_py_add_days(d, n, m, s))
+            }
+            fn py_add_months(&self, d: NaiveDateTime, n: i32, m: rateslib::calendars::Modifier, r: rateslib::calendars::RollDay, s: bool) -> Option<Result<NaiveDateTime, ()>> {
+                Some(self.verif_py_add_months(d, n, m, r, s))
+            }
+            fn py_lag(&self, d: NaiveDateTime, n: i8, s: bool) -> Option<NaiveDateTime> {
+                Some(self.verif_py_lag(d, n, s))
+            }
+            fn py_predicates(&self, d: NaiveDateTime) -> Option<(bool, bool, bool)> {
+                Some((self.verif_py_is_bus_day(d), self.verif_py_is_non_bus_day(d), self.verif_py_is_settlement(d)))
+            }
+            fn py_bus_date_range(&self, a: NaiveDateTime, b: NaiveDateTime) -> Option<Result<Vec<NaiveDateTime>, ()>> {
+                Some(self.verif_py_bus_date_range(a, b))
+            }
+            fn py_cal_date_range(&self, a: NaiveDateTime, b: NaiveDateTime) -> Option<Result<Vec<NaiveDateTime>, ()>> {
+                Some(self.verif_py_cal_date_range(a, b))
+            }
+        }
+    };
+}
+py_cal_layer!(Cal);
+py_cal_layer!(UnionCal);
+py_cal_layer!(NamedCal);
+impl PyCalLayer for rateslib::calendars::CalType {}
